@@ -102,6 +102,9 @@ def build_app(stack, rnd_blob):
         Route('/app404', lambda: Response('nothing of that name here ' * 80, status=404, mimetype='text/plain')),
         Route('/app503', lambda: Response('{"state": "maintenance", "pad": "%s"}' % ('x' * 2000), status=503, mimetype='application/json', headers={'Retry-After': '120'})),
         Route('/accepted', lambda: Response('queued ' * 300, status=202, mimetype='text/plain')),
+        Route('/latin1', lambda: Response(('caf\xe9 cr\xe8me br\xfbl\xe9e ' * 200).encode('latin-1'), mimetype='text/plain')),
+        Route('/rawtext', lambda: Response(bytes(range(256)) * 8)),           # werkzeug's default type: text/plain
+        Route('/utf16html', lambda: Response(('<html><body>' + 'h\u00e9llo ' * 300 + '</body></html>').encode('utf-16'), mimetype='text/html')),
         Route('/seg/<x>', lambda x: Response('segment %r ' % x * 30, mimetype='text/plain')),
     ]
     return Application(routes, middlewares=[make_mw(n) for n in stack])
@@ -122,6 +125,7 @@ REQUESTS = [
     ('text', 'GET', '/text', b''),
     ('app-status', 'GET', '/created', b''), ('app-status', 'GET', '/found', b''), ('app-status', 'GET', '/app404', b''), ('app-status', 'GET', '/app503', b''),
     ('app-status', 'GET', '/accepted', b''),
+    ('text', 'GET', '/latin1', b''), ('text', 'GET', '/rawtext', b''), ('text', 'GET', '/utf16html', b''),
     ('text', 'GET', '/seg/caf\u00e9', b''), ('raw-path', 'GET', 'raw:/seg/caf\xe9', b''), ('raw-path', 'GET', 'raw:/seg/\xff\xfe', b''),
     ('raw-path', 'GET', 'raw:/nope/\xe9t\xe9', b''), ('raw-path', 'GET', 'raw:/seg/ab\xc3', b''), ('raw-path', 'POST', 'raw:/only-get\xa0', b'x=1'),
 ]
